@@ -5,35 +5,55 @@
 (* handshake (it is removed from the store and the file BEFORE the         *)
 (* handshake is sent), an expired or absent ticket falls back to           *)
 (* UniformDH, a restart reloads the file.                                  *)
+(*                                                                         *)
+(* Faults = TRUE adds the environment's write faults: while the store file *)
+(* cannot be rewritten (full disk, read-only state directory) a checkpoint *)
+(* fails.  storeTicket ignores that (the new ticket lives in memory only); *)
+(* getTicket has removed the ticket from memory and returns it WITH the    *)
+(* error, and clientHandshake aborts - the ticket stays in the file and    *)
+(* must therefore not reach the wire, or a restart would send it again.    *)
+(* SendDespiteFault = TRUE is the named deviation (carry on with the       *)
+(* ticket although its removal was not checkpointed): TicketAtMostOnce     *)
+(* fails (TicketStore_faults_dev.cfg).                                     *)
 (***************************************************************************)
 EXTENDS Integers, Sequences, FiniteSets, TLC, Json
-CONSTANTS MaxTickets, MaxSteps
+CONSTANTS MaxTickets, MaxSteps, Faults, SendDespiteFault
 VARIABLES mem,        \* ticket id held in memory (0 = none)
           file,       \* ticket id in the file (0 = none)
           expired,    \* set of ticket ids whose lifetime is over
           issued,     \* next ticket id
           used,       \* ticket id -> number of handshakes it was used for
+          writable,   \* the store file can be rewritten
           hist
-vars == <<mem, file, expired, issued, used, hist>>
-Init == mem = 0 /\ file = 0 /\ expired = {} /\ issued = 1 /\ used = [t \in 1..MaxTickets |-> 0] /\ hist = <<>>
+vars == <<mem, file, expired, issued, used, writable, hist>>
+Init == mem = 0 /\ file = 0 /\ expired = {} /\ issued = 1 /\ used = [t \in 1..MaxTickets |-> 0] /\ writable = TRUE /\ hist = <<>>
 Step(a) == Len(hist) < MaxSteps /\ hist' = Append(hist, a)
-\* Dial: getTicket removes the ticket; valid -> ticket handshake, else UniformDH
-Connect == /\ Step([a |-> "connect", kind |-> IF mem # 0 /\ mem \notin expired THEN "ticket" ELSE "uniformdh"])
-           /\ used' = IF mem # 0 /\ mem \notin expired THEN [used EXCEPT ![mem] = @ + 1] ELSE used
-           /\ mem' = 0 /\ file' = 0 /\ UNCHANGED <<expired, issued>>
-\* the server issues a ticket on the current connection; the client stores it (memory + file)
+\* Dial: getTicket removes the ticket and checkpoints; valid -> ticket handshake, else UniformDH; a failed checkpoint aborts
+ConnectKind == LET usable == mem # 0 /\ mem \notin expired
+                   fault == mem # 0 /\ ~writable IN
+               IF fault /\ (~SendDespiteFault \/ ~usable) THEN "fault" ELSE IF usable THEN "ticket" ELSE "uniformdh"
+Connect == /\ Step([a |-> "connect", kind |-> ConnectKind])
+           /\ used' = IF ConnectKind = "ticket" THEN [used EXCEPT ![mem] = @ + 1] ELSE used
+           /\ mem' = 0 /\ file' = (IF mem # 0 /\ writable THEN 0 ELSE file) /\ UNCHANGED <<expired, issued, writable>>
+\* the server issues a ticket on the current connection; the client stores it (memory + file, the file if it can)
 Issue == /\ issued <= MaxTickets /\ Step([a |-> "issue", kind |-> ""])
-         /\ mem' = issued /\ file' = issued /\ issued' = issued + 1 /\ UNCHANGED <<expired, used>>
+         /\ mem' = issued /\ file' = (IF writable THEN issued ELSE file) /\ issued' = issued + 1 /\ UNCHANGED <<expired, used, writable>>
 \* restart of the client process: the store is reloaded from the file (expired tickets are not loaded)
 Restart == /\ Step([a |-> "restart", kind |-> ""]) /\ mem' = (IF file \in expired THEN 0 ELSE file)
-           /\ UNCHANGED <<file, expired, issued, used>>
-\* time passes: the stored ticket's lifetime (7 days) is over
-Expire == /\ mem # 0 /\ mem \notin expired /\ Step([a |-> "expire", kind |-> ""])
-          /\ expired' = expired \cup {mem} /\ UNCHANGED <<mem, file, issued, used>>
-Next == Connect \/ Issue \/ Restart \/ Expire
+           /\ UNCHANGED <<file, expired, issued, used, writable>>
+\* time passes: the stored ticket's lifetime (7 days) is over (the harness ages memory and rewrites the file from it)
+Expire == /\ writable /\ mem # 0 /\ mem \notin expired /\ Step([a |-> "expire", kind |-> ""])
+          /\ expired' = expired \cup {mem} /\ file' = mem /\ UNCHANGED <<mem, issued, used, writable>>
+Block == /\ Faults /\ writable /\ Step([a |-> "block", kind |-> ""]) /\ writable' = FALSE /\ UNCHANGED <<mem, file, expired, issued, used>>
+Unblock == /\ Faults /\ ~writable /\ Step([a |-> "unblock", kind |-> ""]) /\ writable' = TRUE /\ UNCHANGED <<mem, file, expired, issued, used>>
+Next == Connect \/ Issue \/ Restart \/ Expire \/ Block \/ Unblock
 Spec == Init /\ [][Next]_vars
 TicketAtMostOnce == \A t \in 1..MaxTickets : used[t] <= 1
 ExpiredNeverUsed == \A t \in expired : used[t] = 0 \/ TRUE   \* (a ticket may expire after use; see trace spec for the order)
-MemMatchesFileOrEmpty == mem = 0 \/ mem = file
+MemMatchesFileOrEmpty == ~Faults => (mem = 0 \/ mem = file)
+\* a ticket that was sent is in neither store any more
+UsedIsGone == \A t \in 1..MaxTickets : used[t] > 0 => (mem # t /\ file # t)
 EmitHist == (Len(hist) = MaxSteps) => PrintT(<<"HIST", Len(hist), ToJson(hist)>>)
+\* fault histories: only those in which a fault can matter (a block while something is stored, then at least two more steps)
+EmitFaultHist == (Len(hist) = MaxSteps /\ \E i \in 1..(MaxSteps - 2) : hist[i].a = "block") => PrintT(<<"HIST", Len(hist), ToJson(hist)>>)
 =============================================================================
